@@ -128,6 +128,72 @@ def walker(ctx, W, path, param):
     return fn, param
 
 
+def fold_form_root_from_paths(ctx, W, rp, ev0, fb):
+    """`paths.chunks[_exact](hash_len).fold((index, hash_leaf(data)), |(index, hash), path| (index >> 1, if index & 1 == 0 { hash_nodes(hash, path) } else
+    { hash_nodes(path, hash) }))`: the same walk as the loop form, with the position and the running hash carried in the accumulator."""
+    P = ctx.prog
+    a = [W.expand(x) for x in ev0.call_args(fb)]
+    src = a[0]
+    while isinstance(src, tuple) and src and src[0] == "reader":
+        src = src[1]
+    for _ in range(3):
+        if is_call(src) and callee_name(src[1]) in ("into_iter", "iter", "by_ref") and src[2]:
+            src = W.expand(src[2][0])
+    ok_src = is_call(src) and callee_name(src[1]) in ("chunks", "chunks_exact") and W.expand(src[2][0]) == ("param", rp.path, 4)
+    init = a[1]
+    pi = ph = None
+    if isinstance(init, tuple) and init[0] == "agg" and init[1] == "tuple":
+        for i, c in enumerate(init[2]):
+            c = W.expand(c)
+            if uncast(c) == ("param", rp.path, 2):
+                pi = i
+            elif is_call(c, "MerkleTree::hash_leaf") and c[2][1] == ("param", rp.path, 3):
+                ph = i
+    clo = a[2] if len(a) > 2 else None
+    K = P.fns.get(clo[1]) if isinstance(clo, tuple) and clo and clo[0] == "closure" else None
+    if not ok_src or pi is None or ph is None or K is None:
+        for b in (0, 1):
+            ctx.violation("index-algebra", "root_from_paths/order/parity%d" % b,
+                          "root_from_paths folds over %s starting from %s: not the PATH chunks with (position, hash_leaf(data))" % (fmt(src)[:80], fmt(init)[:80]), ctx.loc(rp))
+        return
+    # locals of the closure that receive the accumulator's components
+    comp = {}
+    for bl in K.blocks:
+        for st in bl.stmts:
+            if st["k"] == "assign" and not st["dst"].get("p") and st["rv"]["k"] == "use":
+                o = st["rv"]["op"].get("mv") or st["rv"]["op"].get("cp")
+                if o and o["l"] == 2 and len(o.get("p", [])) == 1 and isinstance(o["p"][0], dict) and "f" in o["p"][0]:
+                    comp[o["p"][0]["f"]] = st["dst"]["l"]
+    if pi not in comp:
+        ctx.violation("index-algebra", "root_from_paths/order/parity0", "the fold closure does not destructure its accumulator", ctx.loc(K))
+        return
+    upd_ok = True
+    for b in (0, 1):
+        ev = Ev(P, K, overrides={comp[pi]: ("aff", 2, b)})
+        live = ev.live()
+        hn = [(bb, ev.call_args(bb)) for bb, t in K.calls() if bb in live and strip_generics(t["fn"].get("path", "")).endswith("MerkleTree::hash_nodes")]
+        ok = False
+        det = "no hash_nodes call in the fold closure"
+        if len(hn) == 1:
+            x = [values.strip_payload(W.expand(y)) for y in hn[0][1]]
+            first, second = x[1], x[2]
+            is_path = lambda t: t == ("param", K.path, 3)
+            is_running = lambda t: (isinstance(t, tuple) and t and t[0] == "obj" and ph in comp and t[2] == comp[ph]) or t == ("field", ("param", K.path, 2), str(ph))
+            ok = (is_running(first) and is_path(second)) if b == 0 else (is_path(first) and is_running(second))
+            det = "hash_nodes(%s, %s)" % (fmt(first), fmt(second))
+        ctx.check("index-algebra", "root_from_paths/order/parity%d" % b, ok, "position 2k+%d -> hash_nodes(%s)" % (b, "hash, path" if b == 0 else "path, hash"),
+                  "root_from_paths combines in the wrong order for position 2k+%d: %s" % (b, det), ctx.loc(K))
+        r = ev.ret()
+        nxt = r[2][pi] if isinstance(r, tuple) and r[0] == "agg" and r[1] == "tuple" and len(r[2]) > max(pi, ph) else None
+        ctx.check("index-algebra", "root_from_paths/parent/parity%d" % b, nxt == ("aff", 1, 0), "continues with k",
+                  "root_from_paths continues with %s instead of k" % (fmt(nxt) if nxt else None), ctx.loc(K))
+        carried = r[2][ph] if nxt is not None else None
+        if not (len(hn) == 1 and carried is not None and values.strip_payload(W.expand(carried)) == values.strip_payload(ev.call_term(hn[0][0]))):
+            upd_ok = False
+    ctx.check("index-algebra", "root_from_paths/running-hash", upd_ok, "running hash = hash_leaf(data), then the hash_nodes result of each step (fold accumulator)",
+              "the fold in root_from_paths does not carry the hash_nodes result into the next step", ctx.loc(rp))
+
+
 def count_tracks_level(ctx, W, cr, ev0, hash_bb, child_level, iter_form=None):
     """The pair loop must consume exactly the (padded) children level: with c the node counter tested for oddness,
     the counter is c+1 on the odd edge (where the zero node is appended to the CHILDREN level, before pairing), then halved, and the pair loop runs
@@ -334,7 +400,11 @@ def run(ctx):
     # ------------------------------------------------------------------ root_from_paths
     rp = ctx.fn(M + "::root_from_paths")
     ev0 = W.ev(rp.path)
-    for b in (0, 1):
+    folds = [bb for bb, t in rp.calls() if callee_name(t["fn"].get("path", "")) == "fold" and "Iterator" in t["fn"].get("path", "")]
+    has_loop_hash = any(rp.in_loop(bb) for bb, t in rp.calls() if strip_generics(t["fn"].get("path", "")).endswith("MerkleTree::hash_nodes"))
+    if folds and not has_loop_hash:
+        fold_form_root_from_paths(ctx, W, rp, ev0, folds[0])
+    for b in (() if (folds and not has_loop_hash) else (0, 1)):
         ev = Ev(P, rp, overrides={2: ("aff", 2, b)})
         live = ev.live()
         hn = [(bb, ev.call_args(bb)) for bb, t in rp.calls() if bb in live and strip_generics(t["fn"].get("path", "")).endswith("MerkleTree::hash_nodes")
@@ -367,6 +437,8 @@ def run(ctx):
         ctx.check("index-algebra", "root_from_paths/parent/parity%d" % b, nxt == [("aff", 1, 0)], "continues with k",
                   "root_from_paths continues with %s instead of k" % [fmt(n) for n in nxt], ctx.loc(rp))
     # the running hash is reassigned from that hash_nodes result in every iteration
+    if folds and not has_loop_hash:
+        rp_done = True
     hl = [l for l in range(len(rp.locals)) if rp.locals[l].get("name") and rp.locals[l]["ty"].startswith("alloc::vec::Vec<u8")]
     upd = False
     for l in range(len(rp.locals)):
@@ -377,8 +449,9 @@ def run(ctx):
         if any(is_call(t, "MerkleTree::hash_leaf") for t in terms) and any(
                 values.contains(t, lambda s: is_call(s, "MerkleTree::hash_nodes")) and rp.in_loop(d[0]) for t, d in zip(terms, ds)):
             upd = True
-    ctx.check("index-algebra", "root_from_paths/running-hash", upd, "running hash = hash_leaf(data), then the hash_nodes result of each step",
-              "root_from_paths does not carry the hash_nodes result into the next step", ctx.loc(rp))
+    if not (folds and not has_loop_hash):
+        ctx.check("index-algebra", "root_from_paths/running-hash", upd, "running hash = hash_leaf(data), then the hash_nodes result of each step",
+                  "root_from_paths does not carry the hash_nodes result into the next step", ctx.loc(rp))
 
     # ------------------------------------------------------------------ compute_root
     cr = ctx.fn(M + "::compute_root")
@@ -472,6 +545,31 @@ def run(ctx):
                 oke = tt["k"] == "switch" and rev.op(tt["op"], (src, "term"))[0] == "discr"
         ok = okc and oke and bool(loops)
         det = "clear() on %s, loop exits %s" % (fmt(a), loops[0]["exits"] if loops else None)
+    if not clears:
+        # `self.levels.iter_mut().for_each(Vec::clear)` / `.for_each(|l| l.clear())`: std visits every element
+        for bb, t in rs.calls():
+            if callee_name(t["fn"].get("path", "")) != "for_each" or not all(rs.dominates(bb, x) for x in rs.exits()):
+                continue
+            fa = [W.expand(x) for x in rev.call_args(bb)]
+            src = fa[0]
+            while isinstance(src, tuple) and src and src[0] == "reader":
+                src = src[1]
+            if is_call(src) and callee_name(src[1]) in ("iter_mut", "into_iter") and src[2]:
+                src = W.expand(src[2][0])
+            whole = src == ("field", ("param", rs.path, 1), "levels")
+            f2 = fa[1] if len(fa) > 1 else None
+            clears_item = False
+            fnitems = [c[3:] for c in (t.get("closures") or []) if c.startswith("fn:")]
+            if any(callee_name(c) == "clear" and "Vec" in c for c in fnitems):
+                clears_item = True
+            if isinstance(f2, tuple) and f2 and f2[0] == "closure" and f2[1] in P.fns:
+                K = P.fns[f2[1]]
+                kev = W.ev(K.path)
+                cl = [b2 for b2, t2 in K.calls() if callee_name(t2["fn"].get("path", "")) == "clear"]
+                clears_item = len(cl) == 1 and values.strip_payload(kev.call_args(cl[0])[0]) == ("param", K.path, 2) and all(K.dominates(cl[0], x) for x in K.exits())
+            if whole and clears_item:
+                ok = True
+            det = "for_each over %s" % fmt(src)[:100]
     ctx.check("reset", "reset/clears-every-level", ok, "reset clears every element of `levels` (iteration to exhaustion)",
               "MerkleTree::reset does not clear every level: " + det, ctx.loc(rs))
     writers = set()
